@@ -363,6 +363,17 @@ def make_scenario(streams, quarantine=()):
     if klass == 'ok' and ro.random() < 0.12:
         ops.append({'op': 'calc', 'sched': ro.choice(['A', 'A', 'B']), 'fresh': ro.random() < 0.5, 'clock': clock, 'on_result': 0,
                     'clear': ro.random() < 0.6})
+    # a calendar (or the peer's table) edited in place between two calcs of the same scheduler object
+    if klass == 'ok' and supplied and ro.random() < 0.2:
+        def _has_direct(spec):
+            return isinstance(spec, dict) and (spec.get('t') == 'direct' or _has_direct(spec.get('a')) or _has_direct(spec.get('b')))
+        editable = [x['name'] for x in sc['resources'] if x['name'] in supplied and (x['kind'] == 'sim' or _has_direct(x.get('cal')))
+                    and any(t['kw'].get('resource') == x['name'] for t in leaves)]
+        if editable:
+            ops.append({'op': 'mutate', 'm': {'kind': 'cal_set_units', 'res': ro.choice(editable), 'idx': ro.randrange(3),
+                                             'date': iso(base_day + _dt.timedelta(days=ro.choice([0, 1, 2, 3]))),
+                                             'from_rows': ro.choice([0, 0, 1, 2, -1]), 'units': ro.choice([0, 0, 0, 100, 0.5, 16])}})
+            ops.append({'op': 'calc', 'sched': 'A', 'fresh': ro.random() < 0.25, 'clock': clock})
     # WBS edited between two calcs (history dimension): the same scheduler object sees a changed WBS
     if klass == 'ok' and ro.random() < 0.3 and n >= 1:
         st3 = Struct(sc)
@@ -411,7 +422,8 @@ def make_scenario(streams, quarantine=()):
                     # a day the schedule is likely to use: the first days from the project date on
                     edits.append({'op': 'mutate', 'm': {'kind': 'cal_set_units', 'res': ro.choice(editable), 'idx': ro.randrange(3),
                                                        'date': iso(base_day + _dt.timedelta(days=ro.choice([0, 0, 1, 1, 2, 3, 4, 7, -1, 12]))),
-                                                       'units': ro.choice([0, 0.5, 4, 8, 16, 100])}})
+                                                       'from_rows': ro.choice([None, 0, 0, 1, 2, -1]),
+                                                       'units': ro.choice([0, 0, 0.5, 4, 8, 16, 100])}})
             elif k == 'late_cycle' and not edits:
                 cands = [(a, l, b) for a in names if not st3.is_leaf(a) for l in st3.leaves(a) for b in names
                          if b != a and b not in st3.descendants(a) and b not in st3.ancestors(a)
